@@ -7,7 +7,7 @@ PROPS = [json.loads(l)['id'] for l in open(os.path.join(ROOT, 'properties.jsonl'
 TECH = 'TLA+ specification; TLC bounded model check of the group model + TLC trace validation of recorded executions of the real code'
 TECH_X = 'TLA+ specification (oracle operators) + TLC trace validation of recorded executions of the real code'
 CLAIMED = {
- 'C18': dict(text='E1: TLC checks the TCP life-cycle model (spec/Tcp.tla: attempt / refused -> 5 s sleep -> wake / up / deliver / peer ends) over all scripts of <= 3 faults from {refuse, accept+close, accept+frames+close, accept+partial line+reset, accept+junk} followed by a healthy connection: a change of connection state never changes the table, nothing learned is lost, the pause is respected, and (liveness, weak fairness) the healthy connection is eventually up and decoded. Conformance: a scripted loopback peer plays the same fault sequences (quick 6, thorough all 155) against the real binary; TLC judges accept times, gaps, liveness of the process and the last refresh.',
+ 'C18': dict(text='E1: TLC checks the TCP life-cycle model (spec/Tcp.tla: attempt / refused -> 5 s sleep -> wake / up / deliver / peer ends) over all scripts of <= 3 faults from {refuse, accept+close, accept+frames+close, accept+partial line+reset, accept+partial line+close, accept+junk} followed by a healthy connection: a change of connection state never changes the table, nothing learned is lost, the pause is respected, and (liveness, weak fairness) the healthy connection is eventually up and decoded; Apalache discharges an inductive invariant of the same life-cycle with an unscripted peer (any number of faults, unbounded clock). Conformance: a scripted loopback peer plays the same fault sequences (quick 11, thorough all 258) against the real binary; TLC judges accept times, gaps, liveness of the process and the last refresh.',
              note='refused attempts cannot be observed by the peer directly; the pause is judged from the accept time after the port is reopened (5n s -0.5/+4 s after the previous connection ended, n = consecutive refusals); wall-clock based', ref='5 C18'),
  'C14': dict(text='TLC parses the columns from the printed header and separator and checks, for all 32 -i flag sets x ~40 constructed rows each (all-blank, min, max with every marker, negatives, one-field-only for each optional column, random, non-fitting), every cell text (alignment, number formats, blank when unknown), the line width whenever all values fit, and group presence <=> flag letter; rows are printed by the real LegendHeaders / Planes::print, and refreshes of the real CLI are checked against the implementation\'s own table.',
              note='gutter characters (source markers) are unconstrained; LC / PTH ages accept k and k+1; floats are given values exactly representable at the printed precision', ref='5 C14'),
